@@ -399,7 +399,7 @@ func run(c Case, ev *pbt.Ev) error {
 }
 
 func TestProp_Sequential(t *testing.T) {
-	pbt.Run(t, pbt.Options{Prop: "C06", Name: "Sequential", Quick: 20000, Thorough: 1000000, Timeout: 60 * time.Second,
+	pbt.Run(t, pbt.Options{Prop: "C06", Name: "Sequential", Quick: 20000, Thorough: 240000, Timeout: 60 * time.Second,
 		Rule: "rapid: blob size k*chunk+{-1,0,1,3} (0-400 bytes), chunk size 1-64, prefetch chunk size, cache {memory, directory LRU 1 (+direct)}, optional redirect at resolve, a script giving the n-th range fetch a personality {exact 206/multipart, forced multipart, reordered parts, one squashed super-range, whole body 200, 403 then refresh, 400 forcing single-range mode, 500, connection error, truncated body}, " +
 			"and 1-10 ops read(off,len around chunk edges and EOF)/Cache/Check/Refresh/cache-loss; oracle: a successful read returns exactly blob[off:min(off+len,size)]; an error needs a scripted failure visible to that call; FetchedSize monotone, <= size, == distinct bytes committed to the recording cache; only chunk-aligned in-range requests reach the server. " +
 			"non-trivial = a non-default personality was served and a multi-chunk read happened with chunks already cached",
@@ -558,7 +558,7 @@ func runConc(c ConcCase, ev *pbt.Ev) error {
 }
 
 func TestProp_Concurrent(t *testing.T) {
-	pbt.Run(t, pbt.Options{Prop: "C06", Name: "Concurrent", Quick: 3000, Thorough: 120000, Timeout: 90 * time.Second,
+	pbt.Run(t, pbt.Options{Prop: "C06", Name: "Concurrent", Quick: 3000, Thorough: 36000, Timeout: 90 * time.Second,
 		Rule: "rapid: 2-8 goroutines first issue the same read while the first range fetch is stalled at a gate (so they join one single-flight fetch; optionally the cache 'loses' everything between the fetch and the copies), then run 0-5 generated reads/Cache calls each against benign server personalities; a sampler polls FetchedSize concurrently; " +
 			"oracle per read: exact bytes and count; FetchedSize monotone, <= size, == committed bytes at quiescence; aligned requests only. non-trivial = every case (>= 2 goroutines share a fetch)",
 	}, genConc, runConc)
